@@ -2,10 +2,29 @@ package index
 
 import (
 	"encoding/binary"
+	"errors"
 	"io"
+	goMath "math"
+)
+
+var (
+	MetadataTooLargeError error = errors.New("Metadata too large")
 )
 
 type Metadata map[string]string
+
+// Checks that the metadata fits the length fields of the snapshot format
+func (this Metadata) Validate() error {
+	if len(this) > goMath.MaxUint16 {
+		return MetadataTooLargeError
+	}
+	for k, v := range this {
+		if len(k) > goMath.MaxUint8 || len(v) > goMath.MaxUint16 {
+			return MetadataTooLargeError
+		}
+	}
+	return nil
+}
 
 func (this Metadata) bytesSize() uint64 {
 	var n int = 0
